@@ -145,6 +145,9 @@ class Inventory:
         self.rng: List[Tuple[str, str, str]] = []    # (generator, function, call)
         self.global_stmts: List[Tuple[str, str]] = []
         self.pyd_defaults: List[Tuple[str, str]] = []
+        self.reach: List[dict] = []                  # static call graph before the write (see reach_before_write)
+        self.dynamic_writes: List[Tuple[str, str]] = []   # setattr / __dict__ writes on a class-like receiver with a non-literal name
+        self.callgraph = None
 
     def entry(self, name: str, kind: str, mutable: bool, how: str):
         e = self.entries.setdefault(name, {"kind": kind, "mutable": mutable, "import_writes": [], "writers": set(), "readers": set(),
@@ -253,7 +256,7 @@ def build() -> Inventory:
             uncond: List[ast.stmt] = []
             for st in fn.body:
                 uncond.append(st)
-                if any(isinstance(x, ast.Return) for x in _walk_same_scope(st)):
+                if any(isinstance(x, (ast.Return, ast.Raise)) for x in _walk_same_scope(st)):
                     break
 
             def calls_before(site: ast.stmt) -> List[str]:
@@ -350,6 +353,20 @@ def build() -> Inventory:
                         en = target_entry(tt)
                         if en:
                             record_write(en, node)
+                # `setattr(Class, "attr", v)` / `object.__setattr__(cls, "attr", v)` / `type.__setattr__(…)`: a write through the back door
+                if isinstance(node, ast.Call) and len(node.args) >= 2 and (
+                        (isinstance(node.func, ast.Name) and node.func.id in ("setattr", "delattr")) or
+                        (isinstance(node.func, ast.Attribute) and node.func.attr in ("__setattr__", "__delattr__")
+                         and isinstance(node.func.value, ast.Name) and node.func.value.id in ("object", "type") and len(node.args) >= 2)):
+                    recv, nm = node.args[0], node.args[1]
+                    class_like = isinstance(recv, ast.Name) and (recv.id == "cls" or recv.id in classes or global_entry(recv.id) is not None)
+                    if class_like:
+                        if isinstance(nm, ast.Constant) and isinstance(nm.value, str):
+                            en = target_entry(ast.Attribute(value=recv, attr=nm.value, ctx=ast.Store()))
+                            if en:
+                                record_write(en, node)
+                        else:
+                            inv.dynamic_writes.append((fq, ast.unparse(node)[:80]))
                 if isinstance(node, ast.Call) and isinstance(node.func, ast.Attribute):
                     f = node.func
                     if f.attr in MUTATORS:
@@ -428,7 +445,405 @@ def build() -> Inventory:
                 elif isinstance(n, (ast.If, ast.Try, ast.With, ast.For, ast.While)):
                     visit_r([x for x in ast.iter_child_nodes(n) if isinstance(x, ast.stmt)], qual_prefix, cls_stack)
         visit_r(m.tree.body, "", [])
+    # ---- pass 4: static call graph: what can run before from_config's write; which writers run whenever from_config runs
+    inv.reach = reach_before_write(inv, mods, classes)
+    always = inv.callgraph.unconditional_closure(ANCHOR) if inv.callgraph is not None else set()
+    for e in inv.entries.values():
+        e["anchored_writers"] = {w for w in e["uncond_writers"] if w in always}
     return inv
+
+
+
+# ------------------------------------------------------------------------------------------------ static call graph (bounded, syntactic)
+IMMEDIATE_CALLERS = {"sorted", "map", "filter", "min", "max", "any", "all", "next", "sum", "list", "tuple", "set", "dict"}
+CTOR_METHODS = ("__init__", "__new__", "__post_init__", "model_post_init")
+
+
+class CallGraph:
+    """Which functions of the package can run when a statement runs — by NAME, with these refinements:
+      * `Foo(...)` for a package class runs `__init__` / `model_post_init` / validators of Foo and its ancestors and the default
+        expressions of their class-body fields (default_factory lambdas included), and fixes the type of `self` inside them;
+      * `self.m()` / `cls.m()` resolves through the MRO of that self type when it is known, else to `m` of the enclosing class, its
+        ancestors and descendants; `super().m()` to the next definition; `Class.m()` through Class's MRO; `f()` to a nested def of the
+        caller, else module-level `f`, else every `f`; `x.m()` on any other receiver to every function named `m` that is defined in the
+        caller's module or in a package module the caller's module imports, transitively (IMPORT-SCOPED name resolution: an object of a
+        class defined in a module outside the caller's import closure is not seen — a stated limit of the syntactic analysis);
+        `self.a()` where the class annotates `self.a: T` with a package class T to `T.__call__` (and descendants');
+      * reading an attribute whose name is a `@property` of the package counts as calling every property of that name;
+      * bodies of lambdas and nested defs are DEFERRED (registered callbacks run later), except lambdas handed to builtins that call them
+        at once. Names that no package function / class carries resolve to nothing (builtins, third-party).
+    Not seen (dynamic only): callables stored in containers / attributes and invoked later in the same operation, `getattr`, dunder
+    protocol methods (`__eq__`, `__hash__`, `__iter__`, …), third-party code calling back, exceptions."""
+
+    def __init__(self, mods: List[_Mod], classes):
+        self.classes = classes
+        self.funcs: Dict[str, List[Tuple[str, ast.AST, Optional[str]]]] = {}
+        self.byqual: Dict[str, Tuple[ast.AST, Optional[str]]] = {}
+        self.props: Set[str] = set()
+        self.attr_types: Dict[Tuple[str, str], str] = {}   # (class, self attribute) -> annotated package class
+        self.visible: Dict[str, Set[str]] = {}             # module -> itself + the package modules it imports (directly)
+        self.class_module: Dict[str, str] = {}
+        for m in mods:
+            vis = {m.name}
+            for n in ast.walk(m.tree):
+                if isinstance(n, ast.ImportFrom) and n.module and (n.module == "primaite" or n.module.startswith("primaite.")):
+                    base = n.module[len("primaite."):] if n.module != "primaite" else "primaite"
+                    vis.add(base)
+                    for a in n.names:       # `from primaite.simulator import core` imports a module
+                        vis.add((base + "." if base != "primaite" else "") + a.name)
+                elif isinstance(n, ast.Import):
+                    for a in n.names:
+                        if a.name.startswith("primaite."):
+                            vis.add(a.name[len("primaite."):])
+            self.visible[m.name] = vis
+        # transitively: an object handed over by an imported module may be of a class that module imports
+        known = set(self.visible)
+        changed = True
+        while changed:
+            changed = False
+            for mname, vis in self.visible.items():
+                add = set()
+                for v in vis:
+                    add |= self.visible.get(v, set()) - vis
+                if add:
+                    vis |= add
+                    changed = True
+        for mname in self.visible:
+            self.visible[mname] &= known | {mname}
+        for cname, defs in classes.items():
+            for (m, _, _) in defs:
+                self.class_module.setdefault(cname, m.name)
+
+        def visit(m: _Mod, body, prefix: str, cls: Optional[str]):
+            for n in body:
+                if isinstance(n, ast.ClassDef):
+                    visit(m, n.body, prefix + n.name + ".", n.name)
+                elif isinstance(n, (ast.FunctionDef, ast.AsyncFunctionDef)):
+                    q = f"{m.name}:{prefix}{n.name}"
+                    self.funcs.setdefault(n.name, []).append((q, n, cls))
+                    self.byqual[q] = (n, cls)
+                    if any(ast.unparse(d) in ("property", "cached_property", "functools.cached_property") or ast.unparse(d).endswith(".setter")
+                           for d in n.decorator_list):
+                        self.props.add(n.name)
+                    if cls:
+                        for x in ast.walk(n):
+                            if isinstance(x, ast.AnnAssign) and isinstance(x.target, ast.Attribute) and isinstance(x.target.value, ast.Name) \
+                                    and x.target.value.id == "self":
+                                t = ast.unparse(x.annotation).split("[")[0].split(".")[-1].strip("'\"")
+                                if t in classes:
+                                    self.attr_types[(cls, x.target.attr)] = t
+                    visit(m, n.body, prefix + n.name + ".", cls)
+                elif isinstance(n, (ast.If, ast.Try, ast.With, ast.For, ast.While)):
+                    visit(m, [x for x in ast.iter_child_nodes(n) if isinstance(x, ast.stmt)], prefix, cls)
+        for m in mods:
+            visit(m, m.tree.body, "", None)
+
+    # -- syntax
+    def walk_now(self, node: ast.AST, include_lambdas: bool = False):
+        stack = [node]
+        while stack:
+            n = stack.pop()
+            yield n
+            for c in ast.iter_child_nodes(n):
+                if isinstance(c, (ast.FunctionDef, ast.AsyncFunctionDef, ast.ClassDef)):
+                    continue
+                if isinstance(c, ast.Lambda) and not include_lambdas:
+                    if isinstance(n, ast.Call) and isinstance(n.func, ast.Name) and n.func.id in IMMEDIATE_CALLERS:
+                        stack.append(c)
+                    continue
+                stack.append(c)
+
+    def callees(self, node: ast.AST, include_lambdas: bool = False) -> List[Tuple[str, str, Optional[str]]]:
+        res = []
+        for x in self.walk_now(node, include_lambdas):
+            if isinstance(x, ast.Call):
+                f = x.func
+                if isinstance(f, ast.Name):
+                    res.append(("name", f.id, None))
+                elif isinstance(f, ast.Attribute):
+                    recv = None
+                    if isinstance(f.value, ast.Name):
+                        recv = f.value.id
+                    elif isinstance(f.value, ast.Call) and isinstance(f.value.func, ast.Name) and f.value.func.id == "super":
+                        recv = "super"
+                    res.append(("attr", f.attr, recv))
+            elif isinstance(x, ast.Attribute) and x.attr in self.props:     # load: the getter; store: the setter
+                res.append(("prop", x.attr, x.value.id if isinstance(x.value, ast.Name) else None))
+        return res
+
+    # -- classes
+    def mro(self, c: str) -> List[str]:
+        return [c] + _ancestors(self.classes, c)
+
+    def descendants(self, c: str) -> Set[str]:
+        return {d for d in self.classes if c in _ancestors(self.classes, d)}
+
+    def ctor(self, cname: str):
+        out = []
+        for c in self.mro(cname):
+            for (m, cd, q) in self.classes.get(c, []):
+                for st in cd.body:
+                    if isinstance(st, (ast.FunctionDef, ast.AsyncFunctionDef)):
+                        if st.name in CTOR_METHODS or any("validator" in ast.unparse(d) for d in st.decorator_list):
+                            out.append((f"{m.name}:{q}.{st.name}", cname))
+                    elif isinstance(st, (ast.Assign, ast.AnnAssign)) and getattr(st, "value", None) is not None:
+                        out.append((("expr", st.value, c), cname))
+        return out
+
+    @staticmethod
+    def _defining(cands, order):
+        for c in order:
+            hit = [q for (q, _, cc) in cands if cc == c]
+            if hit:
+                return hit
+        return []
+
+    def resolve(self, kind: str, name: str, recv: Optional[str], encl: Optional[str], selftype: Optional[str], qual: Optional[str]):
+        if kind == "name" and name in self.classes:
+            return self.ctor(name)
+        if kind == "name" and name == "cls" and encl:
+            return self.ctor(selftype or encl)
+        cands = self.funcs.get(name, [])
+        if not cands:
+            if kind == "attr" and recv == "self" and encl:
+                for c in self.mro(selftype or encl):
+                    t = self.attr_types.get((c, name))
+                    if t:
+                        callers = [q for (q, _, cc) in self.funcs.get("__call__", []) if cc in set(self.mro(t)) | self.descendants(t)]
+                        return [(q, None) for q in callers]
+            return []
+        if kind == "name" and qual:
+            nested = [q for (q, _, _) in cands if q.startswith(qual + ".")]
+            if nested:
+                return [(q, selftype) for q in nested]
+        if recv in ("self", "cls") and encl:
+            if selftype:
+                hit = self._defining(cands, self.mro(selftype))
+                if hit:
+                    return [(q, selftype) for q in hit]
+            fam = set(self.mro(encl)) | self.descendants(encl)
+            hit = [q for (q, _, c) in cands if c in fam]
+            if hit:
+                return [(q, None) for q in hit]
+        if recv == "super" and encl:
+            order = self.mro(selftype) if selftype else self.mro(encl)
+            if encl in order:
+                order = order[order.index(encl) + 1:]
+            return [(q, selftype) for q in self._defining(cands, order)]
+        if kind == "attr" and recv in self.classes:
+            hit = self._defining(cands, self.mro(recv))
+            if hit:
+                return [(q, recv) for q in hit]
+        if kind == "name":
+            hit = [q for (q, _, c) in cands if c is None]
+            return [(q, None) for q in (hit or [q for (q, _, _) in cands])]
+        caller_mod = qual.split(":")[0] if qual else self.class_module.get(encl or "", None)
+        vis = self.visible.get(caller_mod) if caller_mod else None
+        if vis is None:
+            return [(q, None) for (q, _, _) in cands]
+        return [(q, None) for (q, _, _) in cands if q.split(":")[0] in vis]
+
+    def closure(self, start: List[Tuple[str, str, Optional[str]]], encl: Optional[str], qual: Optional[str], max_depth: int = 12,
+                max_funcs: int = 400) -> Tuple[Dict[Tuple[str, Optional[str]], int], bool]:
+        """function contexts (qualified name, self type) reachable from the given call sites; `truncated` when a bound was hit"""
+        seen: Dict[Tuple[str, Optional[str]], int] = {}
+        frontier: List[Tuple[Tuple[str, Optional[str]], int]] = []
+
+        def push(item, st, depth):
+            if isinstance(item, tuple) and item[0] == "expr":
+                for (k, nm, rv) in self.callees(item[1], include_lambdas=True):
+                    for (r, st2) in self.resolve(k, nm, rv, item[2], st, None):
+                        push(r, st2, depth)
+                return
+            key = (item, st)
+            if key in seen:
+                return
+            seen[key] = depth
+            frontier.append((key, depth))
+        for (k, nm, rv) in start:
+            for (r, st) in self.resolve(k, nm, rv, encl, None, qual):
+                push(r, st, 1)
+        truncated = False
+        while frontier:
+            (q, st), d = frontier.pop(0)
+            if len(seen) > max_funcs:
+                truncated = True
+                break
+            if d >= max_depth:
+                truncated = True
+                continue
+            node, c = self.byqual[q]
+            for (k, nm, rv) in self.callees(node):
+                for (r, st2) in self.resolve(k, nm, rv, c, st, q):
+                    push(r, st2, d + 1)
+        return seen, truncated
+
+    # -- statements that run whenever the function runs to completion
+    @staticmethod
+    def unconditional_statements(fn: ast.AST) -> List[ast.stmt]:
+        """direct children of the body up to (and including) the first statement that contains a `return` or a `raise` in its own scope"""
+        out = []
+        for st in fn.body:
+            out.append(st)
+            if any(isinstance(x, (ast.Return, ast.Raise)) for x in _walk_same_scope(st)):
+                break
+        return out
+
+    def unconditional_closure(self, anchor: str, max_depth: int = 3) -> Set[str]:
+        """functions that run whenever `anchor` runs to completion: called (by a resolvable name that has exactly ONE definition in that
+        context) from an unconditional top-level statement, transitively"""
+        out = {anchor}
+        frontier = [(anchor, None, 0)]
+        while frontier:
+            q, st, d = frontier.pop(0)
+            if d >= max_depth or q not in self.byqual:
+                continue
+            node, c = self.byqual[q]
+            for stmt in self.unconditional_statements(node):
+                if not isinstance(stmt, (ast.Expr, ast.Assign, ast.AnnAssign, ast.AugAssign)):
+                    continue      # a call nested in if / for / while / try / with is conditional
+                for x in self.walk_now(stmt):
+                    if isinstance(x, (ast.IfExp, ast.BoolOp)):
+                        break     # short-circuit / conditional expression: its calls are conditional
+                else:
+                    for (k, nm, rv) in self.callees(stmt):
+                        if k == "prop":
+                            continue
+                        r = [t for t in self.resolve(k, nm, rv, c, st, q) if isinstance(t[0], str)]
+                        if k == "name" and nm in self.classes:
+                            continue   # a constructor: its methods write instance state, not the class
+                        if len(r) == 1 and r[0][0] not in out:
+                            out.add(r[0][0])
+                            frontier.append((r[0][0], r[0][1], d + 1))
+        return out
+
+
+def readers_reachable_from(inv: "Inventory", roots: List[str], entry: str) -> Tuple[List[str], bool]:
+    if entry == GENERATORS:
+        return drawers_reachable_from(inv, roots)
+    """non-writer readers of `entry` statically reachable from the given functions (used by the rig for functions that were ENTERED before
+    the write on a monitored run but are not in the static closure: third-party callbacks, validators handed to pydantic, …)"""
+    cg = inv.callgraph
+    e = inv.entries[entry]
+    seen: Dict[Tuple[str, Optional[str]], int] = {}
+    trunc = False
+    for r in roots:
+        if r not in cg.byqual:
+            continue
+        node, c = cg.byqual[r]
+        s2, t2 = cg.closure(cg.callees(node), c, r)
+        seen.update(s2)
+        trunc = trunc or t2
+    reached = {k[0] for k in seen} | set(roots)
+    return sorted(f for f in reached if f in e["readers"] and f not in e["writers"]), trunc
+
+
+def drawers_reachable_from(inv: "Inventory", roots: List[str]) -> Tuple[List[str], bool]:
+    """functions that draw from a process-global generator, statically reachable from the given functions"""
+    cg = inv.callgraph
+    drawers = {f for (_, f, c) in inv.rng if c.split(".")[-1] not in RNG_SEEDERS}
+    seen: Dict[Tuple[str, Optional[str]], int] = {}
+    trunc = False
+    for r in roots:
+        if r not in cg.byqual:
+            continue
+        node, c = cg.byqual[r]
+        s2, t2 = cg.closure(cg.callees(node), c, r)
+        seen.update(s2)
+        trunc = trunc or t2
+    reached = {k[0] for k in seen} | set(roots)
+    return sorted(f for f in reached if f in drawers), trunc
+
+
+GENERATORS = "<process-global generators>"
+ANCHOR = "game.game:PrimaiteGame.from_config"
+ENV_CLASS = ("session.environment", "PrimaiteGymEnv")
+
+
+def _prefix_calls(cg: CallGraph, fn: ast.AST, stop) -> Tuple[List[Tuple[str, str, Optional[str]]], List[str]]:
+    """call sites in the top-level statements of `fn` before the statement for which `stop(stmt)` holds, plus the calls in that statement's
+    own sub-expressions other than the outermost call (e.g. the scheduler call inside `self.game = from_config(self.episode_scheduler(…))`)"""
+    items, names = [], []
+    for st in fn.body:
+        if stop(st):
+            v = getattr(st, "value", None)
+            if isinstance(v, ast.Call):
+                for a in list(v.args) + [k.value for k in v.keywords]:
+                    items += cg.callees(a)
+            break
+        items += cg.callees(st)
+    for (k, nm, rv) in items:
+        t = (rv + "." if rv else "") + nm
+        if t not in names:
+            names.append(t)
+    return items, names
+
+
+def reach_before_write(inv: "Inventory", mods: List[_Mod], classes) -> List[dict]:
+    """For every readable run-time written global written unconditionally by from_config: the functions statically reachable from the calls
+    that each environment operation makes BEFORE that write (from_config's own prefix; `reset` and `__init__` up to `self.game = …`)."""
+    cg = CallGraph(mods, classes)
+    inv.callgraph = cg
+    rows = []
+    if ANCHOR not in cg.byqual:
+        return rows
+    fc, fc_cls = cg.byqual[ANCHOR]
+    env_q = f"{ENV_CLASS[0]}:{ENV_CLASS[1]}"
+    for name, e in sorted(inv.entries.items()):
+        if ANCHOR not in e["uncond_writers"]:
+            continue
+        attr = name.split(".")[-1]
+
+        def is_write(st, attr=attr):
+            tg = st.targets if isinstance(st, ast.Assign) else [st.target] if isinstance(st, (ast.AnnAssign, ast.AugAssign)) else []
+            return any(isinstance(t, ast.Attribute) and t.attr == attr and isinstance(t.value, ast.Name) and t.value.id in classes for t in tg)
+
+        def is_game(st):
+            tg = st.targets if isinstance(st, ast.Assign) else [st.target] if isinstance(st, ast.AnnAssign) else []
+            return any(ast.unparse(t) == "self.game" for t in tg)
+        for op, q, cls, stop in (("from_config", ANCHOR, fc_cls, is_write), ("reset", env_q + ".reset", ENV_CLASS[1], is_game),
+                                 ("__init__", env_q + ".__init__", ENV_CLASS[1], is_game)):
+            if q not in cg.byqual:
+                raise ValueError(f"call graph: {q} not found")
+            items, names = _prefix_calls(cg, cg.byqual[q][0], stop)
+            seen, trunc = cg.closure(items, cls, q)
+            reached = sorted({k[0] for k in seen})
+            rows.append({"entry": name, "op": op, "calls": names, "reached": reached, "truncated": trunc,
+                         "readers": sorted(f for f in reached if f in e["readers"])})
+    # the process-global GENERATORS are re-written (seeded) before they are read as well: nothing that `reset` / `__init__` call BEFORE the
+    # statement that calls `set_random_seed` may draw from them
+    drawers = {f for (_, f, c) in inv.rng if c.split(".")[-1] not in RNG_SEEDERS}
+
+    def seeds(st):
+        return any(isinstance(x, ast.Call) and ast.unparse(x.func).split(".")[-1] == "set_random_seed" for x in ast.walk(st))
+    for op in ("reset", "__init__"):
+        q = f"{env_q}.{op}"
+        if q not in cg.byqual:
+            raise ValueError(f"call graph: {q} not found")
+        fn = cg.byqual[q][0]
+        if not any(seeds(st) for st in fn.body):
+            raise ValueError(f"{q}: no top-level statement calls set_random_seed")
+        items, names = [], []
+        for st in fn.body:
+            if seeds(st):
+                # the sub-expressions of the seeding statement that are evaluated before the call itself (its test, its arguments)
+                for x in ast.walk(st):
+                    if isinstance(x, ast.Call) and ast.unparse(x.func).split(".")[-1] == "set_random_seed":
+                        for a in list(x.args) + [k.value for k in x.keywords]:
+                            items += cg.callees(a)
+                if isinstance(st, ast.If):
+                    items += cg.callees(st.test)
+                break
+            items += cg.callees(st)
+        for (k, nm, rv) in items:
+            t = (rv + "." if rv else "") + nm
+            if t not in names:
+                names.append(t)
+        seen, trunc = cg.closure(items, ENV_CLASS[1], q)
+        reached = sorted({k[0] for k in seen})
+        rows.append({"entry": GENERATORS, "op": op, "calls": names, "reached": reached, "truncated": trunc,
+                     "readers": sorted(f for f in reached if f in drawers)})
+    return rows
 
 
 def _s(x: str) -> str:
@@ -462,7 +877,10 @@ def emit() -> str:
     lines += ["", "structure Entry where", "  name : String", "  kind : String", "  mutableValue : Bool",
               "  importWrites : List String", "  writers : List Nat", "  readers : List Nat",
               "  /-- writers with a write site that is a top-level statement of the function, not after a `return` (UNCONDITIONAL write) -/",
-              "  uncondWriters : List Nat", "  deriving Repr, DecidableEq", "",
+              "  uncondWriters : List Nat",
+              "  /-- unconditional writers that run WHENEVER `PrimaiteGame.from_config` runs to completion: from_config itself or a helper it calls",
+              "  from an unconditional top-level statement (transitively, depth 3) -/",
+              "  anchoredWriters : List Nat", "  deriving Repr, DecidableEq", "",
               "/-- every class-level attribute and module-level mutable object, with the functions (indices into `fns`) that write it",
               "at run time and, for those that are written at run time, the functions that read it -/",
               "def entries : List Entry := ["]
@@ -473,7 +891,7 @@ def emit() -> str:
             continue
         readers = e["readers"] if e["writers"] else []
         rows.append(f"  ⟨{_s(n)}, {_s(e['kind'])}, {'true' if e['mutable'] else 'false'}, {_l(sorted(set(e['import_writes'])))}, "
-                    f"{ids(e['writers'])}, {ids(readers)}, {ids(e['uncond_writers'])}⟩")
+                    f"{ids(e['writers'])}, {ids(readers)}, {ids(e['uncond_writers'])}, {ids(e.get('anchored_writers', set()))}⟩")
     lines.append(",\n".join(rows) + "]")
     loggers = [n for n in names if inv.entries[n]["kind"] == "module-logger"]
     bad_loggers = [n for n in loggers if inv.entries[n]["writers"]]
@@ -490,6 +908,15 @@ def emit() -> str:
         return re.sub(r"\(\)", "", c).split(".")[-1]
     lines.append(",\n".join(f"  ({_s(n)}, {_s(f)}, {_l(c)}, {_l([last_ident(x) for x in c])})" for n in runtime
                             for f, c in sorted(inv.entries[n]["calls_before_write"].items())) + "]")
+    lines += ["", "/-- static call graph (by name; self type followed through constructors; lambdas deferred; see harness/extract/sharedstate.py):",
+              "for each global that from_config writes unconditionally and each environment operation, the calls made BEFORE the write (as written),",
+              "the number of package functions reachable from them, the reachable functions that READ the global (indices into `fns`), and whether",
+              "a bound of the search was hit -/",
+              "def reachBeforeWrite : List (String × String × List String × Nat × List Nat × Bool) := ["]
+    lines.append(",\n".join(f"  ({_s(r['entry'])}, {_s(r['op'])}, {_l(r['calls'])}, {len(r['reached'])}, {ids(r['readers'])}, {'true' if r['truncated'] else 'false'})"
+                            for r in inv.reach) + "]")
+    lines += ["", "/-- `setattr(<class>, <non-literal name>, …)` sites: writes the inventory cannot attribute -/",
+              "def dynamicClassWrites : List (String × String) := [" + ", ".join(f"({_s(f)}, {_s(c)})" for f, c in sorted(set(inv.dynamic_writes))) + "]"]
     lines += ["", "/-- the last identifier (function / method name) of every entry of `fns`, same order -/",
               "def fnIdents : List String := " + _l([f.split(":")[-1].split(".")[-1] for f in fns])]
     lines += ["", "def globalStatements : List (String × String) := [" + ", ".join(f"({_s(f)}, {_s(n)})" for f, n in sorted(set(inv.global_stmts))) + "]",
